@@ -19,7 +19,7 @@ RULE = ('one SplitMix64 state; 40% segment pairs (coplanar crossing/non-crossing
         'touches, contains, compare, contains_point, midpoint, length, as_vector3d; 30% triangles (generic, needle, grid, two-equal, '
         'collinear classes) with a query point at a vertex / on an edge / inside / outside / +-1e-15 around the 100 eps bands / off '
         'the plane, running new, area, normal, circumradius, circumcenter, aspect_ratio, centroid, test_point, edge lookup, has_vertex, '
-        'compare, vertex, segment; 20% one of 21 vector/point functions or operator packs with inputs around every threshold; 10% '
+        'compare, vertex, segment, bounds; 20% one of 21 vector/point functions or operator packs with inputs around every threshold; 10% '
         'sphere/cylinder/disk/box constructors + area (valid and panicking arguments); recorded findings first. non-trivial = not a '
         'pure operator case; distinct = distinct (kind, op, input bits)')
 ASSUMPTIONS = [
